@@ -471,6 +471,8 @@ def build(L):
     if rc is not None:
       kw['rate_clip'] = tuple(None if v is None else float(v) for v in rc)
     post = {k: kw.pop(k) for k in (L.get('post_set') or [])}
+    for k in L.get('omit', []):      # left at the class default (the spec must hold that default): the keyword is not passed at all
+      kw.pop(k, None)
     d = call(dk.SDevice, i, n, bounds, cb, **kw)
     if post and L.get('pwarm'):
       warm_up(d)
